@@ -13,8 +13,9 @@ META = {
             'consumers) emplacements never outnumber requests and delivered values were emplaced.  C24_refuted proves the at-most-once property FALSE for two concurrent '
             'consumers in both OpResult flavours (known finding two-consumers-double-delivery, replayed deterministically on the real class in both builds on every run).  '
             'The model is tied to the code by running generated programs under generated schedules on the real class (hooks before every access of state_/obj_) and '
-            'comparing step trace, results, final state_ and obj_ with the model evaluated in Coq; the executable property (no tag returned twice, no tag out of thin air) is '
-            "evaluated on the implementation's own results.",
+            'comparing step trace, results, final state_ and obj_ with the model evaluated in Coq; the executable property (no tag returned twice, no tag out of thin air, and -- on the event order '
+            "reconstructed from the implementation's own trace and results -- every emplacement after a request step, every delivery right after the emplacement of that value) "
+            "is evaluated on the implementation's output.",
     'note': 'Trusted: Coq kernel; harness/vsched.h; SC interleaving of the atomic accesses (acquire/release reorderings not modelled); the payload type of the harness '
             '(trivially copyable tag, scheduling point at the end of its move constructor when the source is the shared obj_). No axioms.',
 }
@@ -129,7 +130,7 @@ def run(ctx):
     wit_progs = [[('R',), ('E', 7)], [('G',)], [('G',)]]
     wit_sched = [0, 0, 0, 0, 0, 0, 1, 0, 1, 0, 1, 0, 1, 0, 0] + [0] * 8
     wits = [{'keep': k, 'budget': 20, 'progs': wit_progs, 'sched': wit_sched} for k in (False, True)]
-    n = 700 if ctx.quick else 9000
+    n = 450 if ctx.quick else 9000
     cases = wits + [gen_case(r) for _ in range(n)]
     outs = [None] * len(cases)
     for keep, exe in ((False, exe14), (True, exe17)):
@@ -165,24 +166,29 @@ def run(ctx):
         std = 17 if c['keep'] else 14
         replay = {'case': line_of(c), 'build': 'c++%d' % std, 'output': o,
                   'cmd': 'echo "<case>" | build/harness/h_asyncreq%s-*' % ('17' if c['keep'] else '')}
-        if v == 4:
+        if v == 6:
             dd[std] += 1
             ctx.violation('value delivered twice with concurrent consumers: ' + o[:300], dict(replay, finding_key=KEY))
+        elif v == 4:
+            ctx.violation('emplace/get order broken with concurrent consumers (emplacement without a fresh request, or a stale / not-yet-published value returned): ' + o[:300],
+                          dict(replay, finding_key=KEY))
         elif v == 5:
             ctx.violation('value delivered twice with concurrent consumers: ' + o[:300], dict(replay, finding_key=KEY))
             ctx.broken.append('correspondence L(C24): real trace differs from the model on ' + line_of(c)[:160] + ' -> ' + o[:200])
         elif v == 2:
-            ctx.violation('a getUpdate value is returned twice (or was never emplaced) although at most one thread consumes: %s -> %s' % (line_of(c)[:200], o[:300]), replay)
+            ctx.violation('property fails on the real class although at most one thread consumes (a value returned twice / never emplaced / not emplaced since the latest '
+                          'request, or tryEmplaceUpdate succeeded without a request): %s -> %s' % (line_of(c)[:200], o[:300]), replay)
         elif v == 1:
             ctx.broken.append('correspondence L(C24) [c++%d build]: real trace differs from the model on %s -> %s' % (std, line_of(c)[:160], o[:200]))
     ctx.cov['verdict_histogram'] = {'agree': hist.get(0, 0), 'differ_property_holds': hist.get(1, 0), 'property_fails_outside_known_domain': hist.get(2, 0),
-                                    'double_delivery_known_domain_model_agrees': hist.get(4, 0), 'double_delivery_known_domain_model_differs': hist.get(5, 0)}
+                                    'double_delivery_known_domain_model_agrees': hist.get(6, 0), 'order_broken_known_domain_model_agrees': hist.get(4, 0),
+                                    'fails_in_known_domain_model_differs': hist.get(5, 0)}
     ctx.cov['double_deliveries_by_build'] = {'c++14_OpResult': dd[14], 'c++17_optional': dd[17]}
-    ctx.cov['traces_validated_against_impl'] += hist.get(0, 0) + hist.get(4, 0)
+    ctx.cov['traces_validated_against_impl'] += hist.get(0, 0) + hist.get(4, 0) + hist.get(6, 0)
     ctx.cov['cases_by_consumer_threads'] = {str(k): sum(1 for c, _, _ in kept if min(n_consumers(c), 3) == k) for k in (0, 1, 2, 3)}
     ctx.cov['cases_with_delivery'] = sum(1 for _, p, _ in kept if any(tag == TAGS['get'] for rs in p['results'].values() for tag, v in rs))
     ctx.cov['status_histogram'] = {k: sum(1 for _, p, _ in kept if p['status'] == v) for k, v in (('done', 0), ('budget', 2))}
-    if len(verdicts) >= 2 and not (verdicts[0] == 4 and verdicts[1] == 4):
+    if len(verdicts) >= 2 and not (verdicts[0] == 6 and verdicts[1] == 6):
         ctx.cov['known_finding_witness'] = 'no longer reproduces: verdicts %r' % (verdicts[:2],)
     ctx.sample({'case': line_of(cases[0])[:120], 'impl_c++14': outs[0][:400]})
     ctx.sample({'case': line_of(cases[1])[:120], 'impl_c++17': outs[1][:400]})
